@@ -230,7 +230,8 @@ func (r *Report) Finish() int {
 		"trusted_base":           nz(r.Trusted),
 		"known_findings_matched": nz(matched),
 		"checker_cmd":            fmt.Sprintf("./check %s %s", r.Prop, r.Tier),
-		"all_obligations":        r.Obls,
+		"all_obligations":        capObls(r.Obls),
+		"all_obligations_listed": len(capObls(r.Obls)),
 	}
 	for k, v := range r.Extra {
 		cov[k] = v
@@ -265,4 +266,23 @@ func nz(s []string) []string {
 		return []string{}
 	}
 	return s
+}
+
+// capObls keeps every non-discharged obligation and the first 400 others (the
+// counts above are always complete).
+func capObls(obls []*Obligation) []*Obligation {
+	if len(obls) <= 400 {
+		return obls
+	}
+	var out []*Obligation
+	n := 0
+	for _, o := range obls {
+		if o.Status != Discharged {
+			out = append(out, o)
+		} else if n < 400 {
+			out = append(out, o)
+			n++
+		}
+	}
+	return out
 }
